@@ -27,11 +27,11 @@ PROPS = {
     },
     "C03": {
         "level": "exploration",
-        "steps": [("hv", "C03x", {}), ("hv", "C03s", {"_scale": 0.5}), ("hv", "wasmapi", {}), ("py", "san", "miri", "thorough_only")],
+        "steps": [("hv", "C03x", {}), ("hv", "C03s", {"_scale": 0.5}), ("hv", "wasmapi", {}), ("py", "c08", "run_for_c03"), ("py", "san", "miri", "thorough_only")],
         "rule": "(a) exhaustive edit primitive: all texts of length 0..5 over {a,b,c} x all spans x Replace(len 0..3)/InsertAfter(len 0..2)/Remove "
                 "against an independent splice; (b) every lint and suggestion produced by the C01 document stream: span inside text, apply == "
                 "reference splice; (c) the JS API: every suggestion of every lint of harper_wasm::Linter::lint applied through Linter::apply_suggestion on multi-byte texts whose "
-                "last lint touches the end of the text; non-trivial = lint with >= 1 suggestion not at offset 0; distinct = hash(message, flagged text)",
+                "last lint touches the end of the text; (d) harper-ls: published ranges and quick-fix text edits decoded with an independent UTF-16 position model against the lint's characters and the reference splice; non-trivial = lint with >= 1 suggestion not at offset 0; distinct = hash(message, flagged text)",
         "assumptions": ["does not judge whether a suggestion is linguistically right"],
     },
     "C04": {
@@ -134,11 +134,12 @@ PROPS = {
     },
     "C15": {
         "level": "exploration",
-        "steps": [("hv", "C15", {})],
+        "steps": [("hv", "C15", {}), ("hv", "wasmdict", {})],
         "rule": "small families exhaustively: words of length 1..2 over {a,b,B,'}, dictionaries of <= 3 words, all queries of length 0..3, bounds 0..3, caps {1,2,100}, on the mutable, FST "
                 "and two merged back-ends (agreement of every query API incl. *_str variants, union semantics of two-part merges, fuzzy results: real word, true Levenshtein distance by "
                 "an independent usize Wagner-Fischer, bound, order, cap, completeness for lower-case queries); all string pairs of length <= 4 for the distance routine; sampled "
-                "queries on the curated dictionary (re-cased, edited, apostrophe, non-ASCII, empty, 60-300 chars); distinct = hash(query, bound, cap, back-end, dictionary)",
+                "queries on the curated dictionary (re-cased, edited, apostrophe, non-ASCII, empty, 60-300 chars); the merged view of the JS-facing linter after import_words histories "
+                "(every word export_words lists is accepted in that spelling); distinct = hash(query, bound, cap, back-end, dictionary)",
         "assumptions": ["a dictionary's content is what the mutable back-end holds after insertion (case twins share one entry)"],
         "exhaustive_part": "thorough tier: the whole small family; quick tier: 1- and 2-word dictionaries fully, 3-word dictionaries 1/7, (bound, cap) grid 1/3",
     },
